@@ -283,9 +283,9 @@ func execEv(in string) string {
 
 func genC19(tier string, seed uint64, emit func(string)) {
 	r := &rng{s: seed}
-	n := 1500
+	n := 1000
 	if tier == "thorough" {
-		n = 40000
+		n = 10000
 	}
 	signers := []string{"g1", "g2", "g3", "g4", "g5", "f1", "e2", "u1", "m1", "f3", "e4", "g1", "g2"}
 	for i := 0; i < n; i++ {
